@@ -11,7 +11,7 @@ DRIVER = "drivers/Run.lean"
 TRUSTED_BASE = RUN_TRUSTED + ["fixture scheduling per scope: C14's Model/Fixture.lean theorems scheduled_only_needed / scheduled_deps_before (tied by C14.validate)"]
 ASSUMPTIONS = RUN_ASSUMPTIONS + []
 RULE = 'generated project (harness/run/gen.py) × nb_threads 1..8 × gate strategy (off/fifo/lifo/random) forcing completion orders × keyboard interrupt (30 %: at a quiescent point or at the k-th get); non-trivial = ≥ 2 tests, ≥ 1 body entered, ≥ 8 events; distinct = hash of the case (project + schedule parameters); C03 additionally needs ≥ 1 fixture with a dependency edge or two scopes'
-EXPLANATION = "Teardown tasks start after the setup task and all consumers (Lean theorems for every valid project and interleaving, a keyboard interrupt at any moment included, via the scheduler's ordering invariant and the exact dependency lists of buildTasks); the per-task setup/teardown loops are executed by the run model that every real run is replayed on; the oracle checks the partial order of setup/use/teardown records with value identities."
+EXPLANATION = "Teardown tasks start after the setup task and all consumers (Lean theorems for every valid project and interleaving, a keyboard interrupt at any moment included, via the scheduler's ordering invariant and the exact dependency lists of buildTasks); the per-task setup/teardown loops are executed by the run model that every real run is replayed on; the oracle checks the partial order of setup/use/teardown records with value identities. Accepted real traces are provably executions of the scheduler model (C01Accept.accepted_suite_teardown_after_setup_and_tests, …_suite_end_after_everything_inside, …_session_teardown_after_all_suites)."
 
 
 def witness(title_prefix):
@@ -74,7 +74,7 @@ PROPS_FILES = PROPS_FILES + ["LccModel/Props/C03Decl.lean"]
 NAMESPACES = dict(NAMESPACES, **{"LccModel/Props/C03Decl.lean": "LccModel.C03Decl"})
 TRUSTED_BASE = TRUSTED_BASE + DECL_TRUSTED + DECLRUN_TRUSTED
 RULE = RULE + "; " + DECLRUN_RULE
-TABLE_OPENS = ("LccModel.Inject",)
+TABLE_OPENS = ("LccModel.SuiteObj",)
 
 
 def tables(ctx):
